@@ -418,6 +418,18 @@ func (w *Wallet) syncWithChain(birthdayStamp *waddrmgr.BlockStamp) error {
 		log.Debug("Chain backend synced to tip!")
 	}
 
+	// If we weren't handed a birthday block, a previous attempt to sync,
+	// which failed later on, may have located and persisted it already.
+	// Locating it again would attempt to re-initialize our synced-to
+	// state, which the address manager refuses once the birthday block is
+	// set, causing every further attempt to fail as well.
+	if birthdayStamp == nil {
+		persistedStamp, err := w.BirthdayBlock()
+		if err == nil {
+			birthdayStamp = persistedStamp
+		}
+	}
+
 	// If we've yet to find our birthday block, we'll do so now.
 	if birthdayStamp == nil {
 		var err error
